@@ -6,7 +6,7 @@
 import json, os, subprocess, sys, shutil
 
 d = sys.argv[1]
-W = "/tmp/mut"
+W = os.environ.get("SEED_W", "/tmp/mut")
 head = subprocess.check_output(["git", "-C", "/repo", "rev-parse", "HEAD"], text=True).strip()
 subprocess.run(["git", "-C", W, "checkout", "-q", "--detach", head], check=True)
 subprocess.run(["git", "-C", W, "checkout", "-q", "--", "."], check=True)
